@@ -3,11 +3,14 @@ package filetransfer
 import (
 	"compress/gzip"
 	"encoding/json"
+	"errors"
 	"fmt"
 	"io"
+	"io/fs"
 	"os"
 	"path/filepath"
 	"strings"
+	"syscall"
 	"unicode"
 
 	"golang.org/x/crypto/bcrypt"
@@ -72,6 +75,11 @@ func (h *StreamHandler) ValidateUploadMetadata(meta *TransferMetadata) error {
 		return err
 	}
 
+	// Uploads follow links, also in parent directories of the destination
+	if err := h.validateRealPath(meta.Path, true); err != nil {
+		return err
+	}
+
 	// Check size limit (if not directory and size is known)
 	if !meta.IsDirectory && meta.Size > 0 && h.cfg.MaxFileSize > 0 && meta.Size > h.cfg.MaxFileSize {
 		return fmt.Errorf("file too large: %d bytes (max %d)", meta.Size, h.cfg.MaxFileSize)
@@ -88,6 +96,11 @@ func (h *StreamHandler) ValidateDownloadMetadata(meta *TransferMetadata) error {
 
 	// Check for symlinks and validate their targets
 	if err := h.validateSymlinkTarget(meta.Path); err != nil {
+		return err
+	}
+
+	// Links in parent directories must not lead outside the allowed paths either
+	if err := h.validateRealPath(meta.Path, true); err != nil {
 		return err
 	}
 
@@ -238,6 +251,79 @@ func (h *StreamHandler) validatePath(path string) error {
 	}
 
 	return fmt.Errorf("path not in allowed list: %s", path)
+}
+
+// validateRealPath checks the real location of an already validated path: symbolic
+// links in a parent directory (or, with followFinal, the last component) must not lead
+// outside the allowed paths. Only the existing part of the path is resolved, so it can
+// be used before an upload creates missing directories. Allowed patterns are compared
+// with their own base directory resolved, so an allowed directory that is itself
+// reached through a link keeps working.
+func (h *StreamHandler) validateRealPath(path string, followFinal bool) error {
+	// Resolve the path the operations use (cleaned, not Unicode-normalized)
+	clean := filepath.Clean(path)
+	real, err := resolveExistingPath(clean, followFinal)
+	if err != nil {
+		return err
+	}
+	if real == clean {
+		return nil // no links involved; validatePath has decided
+	}
+	for _, pattern := range h.cfg.AllowedPaths {
+		if pattern == "*" {
+			return nil
+		}
+		if isPathAllowed(real, resolvePatternBase(pattern)) {
+			return nil
+		}
+	}
+	return fmt.Errorf("path resolves outside the allowed list: %s", path)
+}
+
+// resolveExistingPath resolves the symbolic links of the longest existing prefix of path
+// and appends the remaining (not yet existing) components. With followFinal false the
+// last component is left alone (operations that act on a link itself).
+func resolveExistingPath(path string, followFinal bool) (string, error) {
+	if !followFinal {
+		dir, err := resolveExistingPath(filepath.Dir(path), true)
+		if err != nil {
+			return "", err
+		}
+		return filepath.Join(dir, filepath.Base(path)), nil
+	}
+	cur, rest := path, ""
+	for {
+		real, err := filepath.EvalSymlinks(cur)
+		if err == nil {
+			return filepath.Join(real, rest), nil
+		}
+		if !errors.Is(err, fs.ErrNotExist) && !errors.Is(err, syscall.ENOTDIR) {
+			return "", fmt.Errorf("cannot resolve path: %w", err)
+		}
+		if fi, lerr := os.Lstat(cur); lerr == nil && fi.Mode()&os.ModeSymlink != 0 {
+			return "", fmt.Errorf("path passes through a dangling link: %s", path)
+		}
+		parent := filepath.Dir(cur)
+		if parent == cur {
+			return "", fmt.Errorf("cannot resolve path: %s", path)
+		}
+		rest = filepath.Join(filepath.Base(cur), rest)
+		cur = parent
+	}
+}
+
+// resolvePatternBase returns pattern with the symbolic links of its base directory resolved.
+func resolvePatternBase(pattern string) string {
+	clean := normalizePath(pattern)
+	base := patternBaseDir(pattern)
+	if base == "" || base == string(filepath.Separator) {
+		return clean
+	}
+	real, err := filepath.EvalSymlinks(base)
+	if err != nil || real == base {
+		return clean
+	}
+	return real + strings.TrimPrefix(clean, base)
 }
 
 // isPathAllowed checks if a path matches an allowed pattern.
